@@ -55,6 +55,7 @@ namespace hist {
 static std::string workdir;
 static std::string mode_ = "C03";       // which property's driver this is (C04: delete report)
 static bool read_only = false;
+static std::vector<std::string> raw_at_open;   // the raw dump right after the last open (C02: a read-only session changes nothing)
 static nix::File file;
 static int file_serial = 0;
 static std::string path;
@@ -986,7 +987,10 @@ static void set_dim_fields(nix::DataArray &a, size_t i, unsigned seed) {
     unsigned r = lcg(seed);
     switch (d.dimensionType()) {
     case nix::DimensionType::Set: { nix::SetDimension x; x = d; x.labels({"a" + std::to_string(r % 10), "b", "c"}); if (r & 16) x.label("set-label"); break; }
-    case nix::DimensionType::Sample: { nix::SampledDimension x; x = d; x.samplingInterval(0.25 * (1 + r % 7)); x.offset(double(r % 5) - 2.0);
+    case nix::DimensionType::Sample: { nix::SampledDimension x; x = d;
+        // the order of the two numeric writes depends on the seed: on a read-only file the FIRST one is the refused one
+        if (r & 32) { x.offset(double(r % 5) - 2.0); x.samplingInterval(0.25 * (1 + r % 7)); }
+        else { x.samplingInterval(0.25 * (1 + r % 7)); x.offset(double(r % 5) - 2.0); }
         x.label("time"); x.unit((r & 16) ? "ms" : "s"); break; }
     case nix::DimensionType::Range: { nix::RangeDimension x; x = d; if (!x.alias()) { x.ticks({0.5, 1.0 + (r % 3), 10.0}); x.label("ticks"); x.unit("mV"); } break; }
     default: break;
@@ -1256,6 +1260,7 @@ static void reset() {
     path = workdir + "/hist" + std::to_string(file_serial % 2) + ".nix";
     file = nix::File::open(path, nix::FileMode::Overwrite);
     read_only = false;
+    raw_at_open.clear();
     last_dump = dump();
 }
 
@@ -1274,19 +1279,29 @@ static std::string answer(const std::vector<std::string> &t) {
     if (c == "reopen") {
         std::string kind = t.size() > 1 ? t[1] : "rw";
         std::vector<std::string> raw_before = rawdump(file);
+        bool same = true;
+        std::string diff = "-";
+        // a read-only session, refused modifications included, shows from its first to its last call what it showed when it was opened
+        if (read_only && !raw_at_open.empty() && raw_before != raw_at_open) { same = false; diff = "ro-session:" + raw_diff(raw_at_open, raw_before); }
         for (auto &h : hs) { h.b = nix::Block(); h.s = nix::Section(); h.p = nix::Property(); h.a = nix::DataArray(); h.d = nix::DataFrame();
                              h.t = nix::Tag(); h.m = nix::MultiTag(); h.g = nix::Group(); h.r = nix::Source(); h.x = nix::Feature(); }
         file.close();
-        bool same = true;
-        std::string diff = "-";
         if (kind == "other" || kind == "otherw") {
             std::vector<std::string> child;
-            if (!other_process_dump(kind == "other" ? "ro" : "rw", child)) { same = false; diff = "child-failed"; }
-            else if (child != raw_before) { same = false; diff = "other:" + raw_diff(raw_before, child); }
+            if (!other_process_dump(kind == "other" ? "ro" : "rw", child)) { if (same) { same = false; diff = "child-failed"; } }
+            else if (child != raw_before && same) { same = false; diff = "other:" + raw_diff(raw_before, child); }
         }
         read_only = kind == "ro";
-        file = nix::File::open(path, read_only ? nix::FileMode::ReadOnly : nix::FileMode::ReadWrite);
+        try {
+            file = nix::File::open(path, read_only ? nix::FileMode::ReadOnly : nix::FileMode::ReadWrite);
+        } catch (...) {
+            // the file cannot be opened again in this process (it was not really released by close)
+            file = nix::File();
+            raw_at_open.clear();
+            return "ERR reopen-failed " + classify();
+        }
         std::vector<std::string> raw_after = rawdump(file);
+        raw_at_open = raw_after;
         if (raw_after != raw_before && same) { same = false; diff = raw_diff(raw_before, raw_after); }
         std::string before = last_dump;
         refresh_liveness(true);
